@@ -46,11 +46,13 @@ ASSUMPTIONS = [
     "one workspace (the fixed world of tools/props/uipv.py); InputFile is used with validate=False in the modelled trip "
     "(validation is C15's subject)",
     "a form's value is None only when the form is disabled (an enabled form holding None is switched off by write_ui_json; "
-    "the enabled-state oracle skips such forms)",
+    "the enabled-state oracle skips such forms); set_data_value is judged for optional forms and for non-None values of forms "
+    "without an enabled member (a non-optional form carrying enabled: false cannot be switched on by giving it a value)",
     "NaN is not a ui.json value (documented exception of the property)",
 ]
 RULE = ("file: title/geoh5/... base parameters + 2-6 forms drawn from all 12 templates with every optional template member "
-        "present/absent independently, values from the form's domain plus +-inf, integers up to 2^70, strings shaped like other kinds "
+        "present/absent independently, workspace file names with extra dots / blanks, validation_options given / partly given / absent, "
+        "values set with set_data_value before writing (also on disabled optional parameters), values from the form's domain plus +-inf, integers up to 2^70, strings shaped like other kinds "
         "('' inf -inf uuid-shaped *.geoh5), optional/enabled/group/dependency switches; fn: nested values of depth <= 3; "
         "non-trivial = a file case that reaches the read-back stage with at least one entity, non-finite float, disabled form or "
         "look-alike string, or an fn case on a container")
@@ -210,7 +212,16 @@ def gen_file_case(rng, lookalike=False):
             else:
                 continue
             sets.append([f["name"], v])
-    return {"k": "file", "entries": entries + forms, "sets": sets}
+    for f in forms:      # a value given to a previously disabled optional parameter (no group / dependency in the way)
+        if f["kw"].get("optional") == "disabled" and not f["extra"] and not any(n == f["name"] for n, _ in sets) and rng.chance(60):
+            v = {"integer_parameter": 7, "float_parameter": {"f": [5, 1]}, "string_parameter": "xyz", "file_parameter": "a/b.chg",
+                 "choice_string_parameter": None, "object_parameter": {"e": 0x21, "k": "ent"}, "group_parameter": {"e": 0x11, "k": "ent"}}.get(f["tmpl"])
+            if v is not None:
+                sets.append([f["name"], v])
+    case = {"k": "file", "entries": entries + forms, "sets": sets}
+    case["wname"] = rng.weighted([("world.geoh5", 40), ("survey.v2.geoh5", 20), ("line_10.5.geoh5", 15), ("my world.geoh5", 15), ("a.b.c.geoh5", 10)])
+    case["vopts"] = rng.weighted([(None, 40), ({"ignore_list": []}, 25), ({"update_enabled": True}, 15), ({"update_enabled": True, "ignore_list": []}, 20)])
+    return case
 
 
 def witness_file(value_entry, sets=()):
@@ -266,6 +277,7 @@ def drive_one(case, work):  # noqa: C901
     import os
     import warnings
     warnings.simplefilter("ignore")
+    uipv.WORLD_NAME[0] = case.get("wname", "world.geoh5")
     ws, _objs, wpath = uipv.get_world(work)
     if case["k"] == "fn":
         from geoh5py.shared import utils as SU
@@ -337,7 +349,10 @@ def drive_one(case, work):  # noqa: C901
             obs["msg"] = str(e)[:200]
             return None
     try:
-        ifile = stage("construct", lambda: InputFile(ui_json=ui, validate=False))
+        kwargs = {"validate": False}
+        if case.get("vopts") is not None:
+            kwargs["validation_options"] = {k: (tuple(v) if isinstance(v, list) else v) for k, v in case["vopts"].items()}
+        ifile = stage("construct", lambda: InputFile(ui_json=ui, **kwargs))
         if ifile is None:
             return obs
         d0 = stage("data0", lambda: ifile.data)
@@ -360,7 +375,10 @@ def drive_one(case, work):  # noqa: C901
         text = open(out_path, encoding="utf-8").read()
         obs["nonfinite_token"] = bool(re.search(r"(?<![\w\"])(-?Infinity|NaN)(?![\w\"])", text))
         obs["json"] = enc(json.loads(text), work)
-        back = stage("read", lambda: InputFile.read_ui_json(out_path, validate=False))
+        kwargs2 = dict(kwargs)
+        if "validation_options" in kwargs2:
+            kwargs2["validation_options"] = dict(kwargs2["validation_options"])
+        back = stage("read", lambda: InputFile.read_ui_json(out_path, **kwargs2))
         if back is None:
             return obs
         d1 = stage("data1", lambda: back.data)
@@ -565,11 +583,21 @@ def oracle(case, obs):
     stable = {k: demoted(v) for k, v in obs.get("reflat0", d0)["d"]}
     # an enabled form that holds None is switched off by write_ui_json (and its group with it): outside the domain
     valueless_enabled = ui0 is not None and any(is_jdict(f) and jget(f, "enabled") is True and m0.get(name) is None for name, f in ui0["d"])
+    def settable(name, v):
+        """a set_data_value the property speaks about: a value for an optional form, or a non-None value for a form that has no
+        enabled member (a non-optional form cannot be switched on or off by giving it a value)"""
+        f = jget(ui0, name) if ui0 is not None else None
+        if not is_jdict(f):
+            return True
+        if jhas(f, "enabled"):
+            return jget(f, "optional", False) is True
+        return v is not None
+    was_set = {n for n, v in case.get("sets", []) if settable(n, v)}
     if list(m0) != list(m1):
         fails.append({"key": "parameters-differ", "what": f"parameters before {list(m0)} after {list(m1)}"})
     elif not valueless_enabled:
         for name in m0:
-            if not _same(stable.get(name), m0[name]):
+            if not _same(stable.get(name), m0[name]) and name not in was_set:
                 continue    # loading itself switched this parameter off (member of a disabled group): compare from the loaded state on
             if not _same(m0[name], m1[name]):
                 ks = [k for k in (collision_kind(a) for a in _all_atoms(m0[name])) if k]
